@@ -105,3 +105,9 @@ Proof.
   rewrite N.land_diag. apply N.eqb_refl.
 Qed.
 
+
+Lemma testbit_subset a b f : subset_bits a b = true -> N.testbit a f = true -> N.testbit b f = true.
+Proof.
+  unfold subset_bits. intros H Ht. apply N.eqb_eq in H. rewrite <- H in Ht.
+  rewrite N.land_spec in Ht. apply andb_true_iff in Ht. tauto.
+Qed.
